@@ -1,4 +1,5 @@
 import numpy as np
+import math
 
 
 class Expression:
@@ -87,7 +88,7 @@ class List(Expression):
         if any(v is None for v in values):
             return None
         else:
-            return int(np.prod(values))
+            return math.prod(int(v) for v in values)
 
     def __iter__(self):
         for c in self.children:
@@ -161,7 +162,7 @@ class ConcatenatedAxis(Expression):
         if any(v is None for v in values):
             return None
         else:
-            return np.sum(values)
+            return sum(int(v) for v in values)
 
     def __iter__(self):
         yield self
